@@ -217,23 +217,33 @@ def run_corpus(job):
 
 # ---- unity builds: number of sources x unity_size x ways in which another target consumes the objects -------------
 def unity_cases():
+    """(number of C sources, unity_size, how the objects are consumed, with an assembly source): assembly is a source a C target may
+    list but that cannot be #included into a unity file"""
     out = []
     for n in range(1, 10):
         for usize in (2, 4):
             for how in ('both', 'extract_all', 'extract_one', 'whole'):
-                out.append((n, usize, how))
+                out.append((n, usize, how, False))
+    for n in (0, 1, 2, 5):
+        for usize in (2, 4):
+            for how in ('both', 'extract_all', 'extract_one', 'whole'):
+                out.append((n, usize, how, True))
     return out
 
 
 def run_unity(job):
     from verif import mesonproc as mp
-    idx, n, usize, how = job
+    idx, n, usize, how, asm = job
     root = os.path.join(scratch_root(), 'c04u.%d' % os.getpid())
     shutil.rmtree(root, ignore_errors=True)
-    files = {'main.c': 'int f0(void); int main(void) { return f0(); }\n'}
+    files = {'main.c': 'int f0(void); int main(void) { return f0(); }\n' if n else 'int main(void) { return 0; }\n'}
     for i in range(n):
         files['s%d.c' % i] = 'int f%d(void) { return %d; }\n' % (i, i)
-    srcs = ', '.join("'s%d.c'" % i for i in range(n))
+    names = ['s%d.c' % i for i in range(n)]
+    if asm:
+        files['a.S'] = '\t.text\n\t.globl fa\nfa:\n\tret\n'
+        names.insert(n // 2, 'a.S')
+    srcs = ', '.join("'%s'" % x for x in names)
     L = ["project('u', 'c')"]
     if how == 'both':
         L.append("lib = both_libraries('foo', %s)" % srcs)
@@ -253,7 +263,12 @@ def run_unity(job):
     res = mp.run_meson(['setup', 'b'] + args, root)
     outcome, v, st = judge_setup(res, os.path.join(root, 'b'))
     shutil.rmtree(root, ignore_errors=True)
-    return ('unity', 'n=%d unity_size=%d %s' % (n, usize, how), outcome, v, st, {'files': files, 'args': args})
+    if asm:
+        # name the input class: a unity build of a target that has an assembly source
+        v = [(k + ':unity:assembly-source:' + how if k == 'C04:dangling-input' else k, w) for k, w in v]
+        st['unity_asm'] = 1
+        st['unity_asm_configured'] = int(outcome == 'configured')
+    return ('unity', 'n=%d%s unity_size=%d %s' % (n, '+a.S' if asm else '', usize, how), outcome, v, st, {'files': files, 'args': args})
 
 
 # ---- tests: every way a test can reach something that must be built, in every position ---------------------------------
@@ -668,8 +683,80 @@ def run_aliasrun(job):
     return ('aliasrun', 'alias_target(%s) @%s' % (', '.join(deps), place), outcome, v, st, {'files': files, 'args': []})
 
 
+# ---- a custom target whose output is the path of something it reads ("rewritten in place") -------------------------------------
+# The output name of a custom target may be spelled literally or through the documented substitutions of `output:` (@PLAINNAME@,
+# @BASENAME@, and their indexed forms), and a custom target reads files through input:, through its command line and through
+# depend_files:/depends:.  Whenever the produced path is the path of a file the same statement reads, the statement depends on itself:
+# such a project has to be rejected at configure time.  Every (what is read) x (where it is read) x (how the output is spelled) x
+# (where both live) x layout is configured; each provider/position/place also has control spellings that resolve to another name and
+# must configure.
+INPLACE_PROVIDERS = {
+    'configure_file': "x = configure_file(output: 'data.txt', configuration: {'A': 1}@BS@)",
+    'configure_file-copy': "x = configure_file(input: 'in.txt', output: 'data.txt', copy: true@BS@)",
+    'custom_target': "x = custom_target('prov', output: 'data.txt', command: [cp, files('in.txt'), '@OUTPUT@']@BS@)",
+}
+INPLACE_POSITIONS = ['input', 'input-2nd', 'command-arg', 'depend']
+# spelling -> (output: text with @N@ for the index of the input, resolves to the provider's name?)
+INPLACE_SPELLINGS = {'literal': ('data.txt', True), 'plainname': ('@PLAINNAME@N@@', True), 'basename': ('@BASENAME@N@@.txt', True),
+                     'other-literal': ('other.txt', False), 'other-template': ('@BASENAME@N@@.out', False)}
+INPLACE_PLACES = ['root', 'subdir', 'build_subdir']
+
+
+def inplace_cases(thorough):
+    out = []
+    i = 0
+    for prov in INPLACE_PROVIDERS:
+        for pos in INPLACE_POSITIONS:
+            for sp in INPLACE_SPELLINGS:
+                if pos in ('command-arg', 'depend') and '@' in INPLACE_SPELLINGS[sp][0]:
+                    continue                  # the substitutions of output: take the name of an input: file
+                for place in INPLACE_PLACES:
+                    for layout in ('mirror', 'flat'):
+                        i += 1
+                        if thorough or layout == 'mirror' or i % 3 == 0:
+                            out.append((prov, pos, sp, place, layout))
+    return out
+
+
+def run_inplace(job):
+    from verif import mesonproc as mp
+    idx, prov, pos, sp, place, layout = job
+    root = os.path.join(scratch_root(), 'c04i.%d' % os.getpid())
+    shutil.rmtree(root, ignore_errors=True)
+    bs = ", build_subdir: 'bs'" if place == 'build_subdir' else ''
+    out, same = INPLACE_SPELLINGS[sp]
+    out = out.replace('@N@', '1' if pos == 'input-2nd' else '')
+    reads = {'input': "input: x, command: [cp, '@INPUT@', '@OUTPUT@']", 'input-2nd': "input: [files('in.txt'), x], command: [cp, '@INPUT1@', '@OUTPUT@']",
+             'command-arg': "command: [cp, x, '@OUTPUT@']",
+             'depend': "command: [cp, files('in.txt'), '@OUTPUT@'], %s: x" % ('depends' if prov == 'custom_target' else 'depend_files')}[pos]
+    posname = pos if pos != 'depend' else ('depends' if prov == 'custom_target' else 'depend_files')
+    body = [INPLACE_PROVIDERS[prov].replace('@BS@', bs), "custom_target('rewrite', output: '%s', %s%s, build_by_default: true)" % (out, reads, bs)]
+    head = ["project('ip')", "cp = find_program('cp')"]
+    files = {'in.txt': 'A = @A@\n', 'd/in.txt': 'A = @A@\n'}
+    if place == 'subdir':
+        files['meson.build'] = '\n'.join(head + ["subdir('d')"]) + '\n'
+        files['d/meson.build'] = '\n'.join(body) + '\n'
+    else:
+        files['meson.build'] = '\n'.join(head + body) + '\n'
+    mp.write_tree(root, files)
+    args = ['--layout=' + layout]
+    res = mp.run_meson(['setup', 'b'] + args, root)
+    outcome, v, st = judge_setup(res, os.path.join(root, 'b'))
+    if not same and outcome != 'configured' and not v:
+        v.append(('C04:INTERNAL', 'control project of the in-place family rejected: ' + res.out[-300:]))
+    st['inplace_same_name'] = int(same)
+    st['inplace_same_name_rejected'] = int(same and outcome == 'rejected')
+    st['inplace_control_configured'] = int(not same and outcome == 'configured')
+    # name the input class: what the statement reads, and through which keyword
+    v = [(k if k.startswith('C04:INTERNAL') else '%s:in-place:%s-as-%s' % (k, prov.split('-')[0], posname), w) for k, w in v]
+    shutil.rmtree(root, ignore_errors=True)
+    return ('inplace', "custom_target(output: '%s') reading a %s through %s [%s, %s]" % (out, prov, posname, place, layout), outcome, v, st, {'files': files, 'args': args})
+
+
 def dispatch(job):
     kind = job[0]
+    if kind == 'inplace':
+        return run_inplace(job[1:])
     if kind == 'aliasrun':
         return run_aliasrun(job[1:])
     if kind == 'bsubdir':
@@ -758,8 +845,8 @@ def main():
             jobs.append(('neg', idx, name, rd, sd, layout, src))
             idx += 1
     if ck.want('unity'):
-        for n, usize, how in unity_cases():
-            jobs.append(('unity', idx, n, usize, how))
+        for n, usize, how, asm in unity_cases():
+            jobs.append(('unity', idx, n, usize, how, asm))
             idx += 1
     if ck.want('tests'):
         for kind in ('test', 'benchmark'):
@@ -784,6 +871,10 @@ def main():
         for p, q, r, c, lg in linkkinds_cases(ck.thorough):
             jobs.append(('linkkinds', idx, p, q, r, c, lg))
             idx += 1
+    if ck.want('inplace'):
+        for c in inplace_cases(ck.thorough):
+            jobs.append(('inplace', idx) + c)
+            idx += 1
     if ck.want('genshare'):
         for seq in genshare_cases():
             jobs.append(('genshare', idx, seq))
@@ -804,6 +895,9 @@ def main():
         t[outcome] += 1
         for k in ('edges', 'bbd_targets', 'tests', 'intro_names_without_statement'):
             t[k] = t.get(k, 0) + st.get(k, 0)
+        for k in st:
+            if k.startswith(('inplace_', 'unity_asm')):
+                t[k] = t.get(k, 0) + st[k]
         classes.add((kind, outcome, min(st.get('edges', 0) // 5, 6)))
         if kind == 'neg':
             ck.sample({'collision_case': name, 'outcome': outcome}, cap=6)
@@ -821,6 +915,12 @@ def main():
     if 'linkkinds' in tot:
         ck.require(tot['linkkinds']['configured'] >= 0.6 * tot['linkkinds']['n'] and tot['linkkinds']['rejected'] > 0,
                    'link-kind family: %r' % (tot['linkkinds'],))
+    if 'inplace' in tot:
+        t = tot['inplace']
+        ck.require(t['inplace_same_name_rejected'] >= 10 and t['inplace_control_configured'] == t['n'] - t['inplace_same_name'] > 10 and t['crash'] == 0,
+                   'in-place family: %r' % (t,))
+    if 'unity' in tot:
+        ck.require(tot['unity'].get('unity_asm_configured', 0) == tot['unity'].get('unity_asm', 0) > 0, 'unity family: projects with an assembly source: %r' % (tot['unity'],))
     if 'neg' in tot:
         ck.require(tot['neg']['rejected'] > 10 and tot['neg']['configured'] > 10, 'negative space does not exercise both outcomes')
     if 'corpus' in tot:
